@@ -141,6 +141,13 @@ def gen_cases(rng, tier):
         cases.append({"kind": "spline_sub", "N1": rng.choice([2, 3, 4]), "N2": rng.choice([1, 2, 3]), "other": rng.choice(["MS", "DC"]),
                       "T1": ocpgen.rnd(rng, 0.5, 2, 2), "T2": ocpgen.rnd(rng, 0.5, 2, 2), "x0": ocpgen.rnd(rng, -1, 1),
                       "seed": rng.getrandbits(32)})
+    for i in range(8 if tier == "quick" else 80):
+        cases.append({"kind": "parent_param", "cls": rng.choice(["MS", "SS", "DC"]), "N": rng.choice([1, 2, 3]), "M": rng.choice([1, 2]),
+                      "grid": rng.choice([{"cls": "Uniform", "localize_T": True}, {"cls": "Uniform", "localize_t0": True},
+                                          {"cls": "Free"}, {"cls": "Geometric", "growth": 1.7, "localize_T": True}, {"cls": "Uniform"}]),
+                      "factor": rng.choice([1.0, 2.0, 0.5]), "pp": [ocpgen.rnd(rng, 0.6, 2.0, 2), ocpgen.rnd(rng, 2.1, 3.5, 2)],
+                      "where": rng.choice(["T", "T", "guess", "both"]), "via": rng.choice(["set_value", "set_value", "fresh"]),
+                      "seed": rng.getrandbits(32)})
     return cases
 
 
@@ -297,6 +304,89 @@ def build_multistage(case):
     return ocp, pv, pp, builts, tmpl, tmpl_snap, res["counters"]["clone_templates"]
 
 
+def run_parent_param(case):
+    """a parameter of the Ocp in the horizon and / or a guess of a sub-stage: its value changed on the transcribed OCP gives
+    the start point and NLP data of the same OCP declared with the new value from the start"""
+    import casadi as ca
+    import rockit
+    from ..gen import build
+    from ..obs import nlp
+    res = {"sig": "parent_param|%s|%s|N%dM%d|%s|x%g" % (case["cls"], C.grid_tag(case["grid"]), case["N"], case["M"], case["where"],
+                                                        case["factor"]), "evals": 0, "violations": [],
+           "counters": {"stage_rows_compared": 0, "parent_param_cases": 1}}
+    rng = np.random.default_rng(case["seed"])
+
+    def mk(first, later):
+        ocp = rockit.Ocp()
+        pp = ocp.parameter()
+        in_T = case["where"] in ("T", "both")
+        s1 = ocp.stage(t0=0.2, T=(case["factor"] * pp) if in_T else 1.3)
+        x = s1.state()
+        u = s1.control()
+        s1.set_der(x, -0.4 * x + u)
+        s1.subject_to(s1.at_t0(x) == 0.1)
+        s1.subject_to(-2 <= (u <= 2))
+        s1.add_objective(s1.integral(u ** 2) + (s1.at_tf(x) - pp) ** 2)
+        if case["where"] in ("guess", "both"):
+            s1.set_initial(x, pp * (s1.t + 1))
+            s1.set_initial(u, 0.1 * pp)
+        g_ = build.make_grid(case["grid"])
+        if case["cls"] == "DC":
+            s1.method(rockit.DirectCollocation(N=case["N"], M=case["M"], degree=2, grid=g_))
+        else:
+            s1.method((rockit.MultipleShooting if case["cls"] == "MS" else rockit.SingleShooting)(
+                N=case["N"], M=case["M"], intg="rk", grid=g_))
+        s2 = ocp.stage(t0=s1.tf, T=1.0)
+        y = s2.state()
+        s2.set_der(y, -y)
+        s2.subject_to(s2.at_t0(y) == s1.at_tf(x))
+        s2.add_objective(s2.at_tf(y) ** 2)
+        s2.method(rockit.MultipleShooting(N=2, intg="rk"))
+        ocp.solver("ipopt", {"ipopt.print_level": 0, "print_time": False, "ipopt.max_iter": 0})
+        ocp.set_value(pp, first)
+        v = nlp.NlpView(ocp)
+        if later is not None:
+            ocp.set_value(pp, later)
+            opti = v.opti
+            v.x0 = np.array(opti.debug.value(v.x, opti.initial())).reshape(-1)
+            v.p0 = np.array(opti.debug.value(v.p, opti.initial())).reshape(-1)
+        return v
+
+    try:
+        va = C.call("declare / transcribe / set_value(parent parameter)", mk, case["pp"][0], case["pp"][1])
+        vb = C.call("declare / transcribe (new value from the start)", mk, case["pp"][1], None)
+    except C.RockitRaised as e:
+        res["violations"].append(C.exc_violation(ID, e, "parent_param|" + case["where"]))
+        return res
+    res["evals"] += 2
+    if (va.nx, va.ng, va.np) != (vb.nx, vb.ng, vb.np):
+        res["violations"].append({"kind": "size", "mech": "C12|parent-parameter|nlp-size", "detail": "%s vs %s" % (
+            (va.nx, va.ng, va.np), (vb.nx, vb.ng, vb.np))})
+        return res
+    if va.np and np.max(np.abs(va.p0 - vb.p0)) > 1e-12:
+        res["violations"].append({"kind": "parameters", "mech": "C12|parent-parameter|values",
+                                  "detail": "parameter vector %s, declared with the new value %s" % (C.short(va.p0), C.short(vb.p0))})
+        return res
+    if np.max(np.abs(va.x0 - vb.x0)) > 1e-12:
+        res["violations"].append({
+            "kind": "start", "mech": "C12|parent-parameter|sub-stage-start-point-stale|" + case["where"],
+            "detail": "Ocp parameter in the sub-stage's %s changed from %g to %g on the transcribed OCP: start point %s, the "
+                      "same OCP declared with %g: %s" % (case["where"], case["pp"][0], case["pp"][1], C.short(va.x0[:8]),
+                                                         case["pp"][1], C.short(vb.x0[:8]))})
+        return res
+    for _ in range(2):
+        w = va.random_point(rng)
+        ea, eb = va.eval(w, va.p0), vb.eval(w, vb.p0)
+        res["evals"] += 1
+        res["counters"]["stage_rows_compared"] += va.ng
+        if not all(np.allclose(a_, b_, rtol=1e-11, atol=1e-11, equal_nan=True) for a_, b_ in zip(ea, eb)):
+            res["violations"].append({"kind": "nlp", "mech": "C12|parent-parameter|nlp-functions", "detail": "f %.12g vs %.12g" % (ea[0], eb[0])})
+            return res
+    res["nontrivial"] = True
+    res["sample"] = {"method": case["cls"], "grid": case["grid"], "where": case["where"], "values": case["pp"]}
+    return res
+
+
 def run_spline_sub(case):
     """SplineMethod as the method of one stage of a multi-stage OCP, next to a shooting stage: the objective is the sum of
     the stage objectives and the coupling row is there."""
@@ -363,6 +453,8 @@ def run_case(case):
     import rockit
     if case.get("kind") == "spline_sub":
         return run_spline_sub(case)
+    if case.get("kind") == "parent_param":
+        return run_parent_param(case)
     from ..gen import build
     from ..obs import nlp, coords
     from ..ref import model
